@@ -207,3 +207,15 @@ pub fn parse_typed(kind: char, s: &str, slice: bool) -> Result<(Value, Map), PEr
 		_ => fin(guard(|| if slice { NumberBuf::parse_slice(s.as_bytes()) } else { NumberBuf::parse_str(s) }), Value::Number),
 	}
 }
+
+/// Parses `s` as if it had been decoded from a UTF-16 source: every character
+/// carries its length in UTF-16 code units (`DecodedChar::from_utf16`), so all
+/// offsets are reported in that unit.
+pub fn parse_utf16_lengths(s: &str, o: Opts, fallible: bool) -> PRes {
+	let op = options(o);
+	if fallible {
+		wrap(|| Value::parse_with(s.chars().map(|c| Ok::<DecodedChar, Infallible>(DecodedChar::from_utf16(c))), op))
+	} else {
+		wrap(|| Value::parse_infallible_with(s.chars().map(DecodedChar::from_utf16), op))
+	}
+}
